@@ -19,6 +19,7 @@ open InprocStream (HErr Reason Res codeOf)
 
 inductive HOp where
   | setHeader (md : Nat) | sendHeader (md : Nat) | setTrailer (md : Nat)
+  | setStatusHeader (code : Nat)   -- SetHeader with metadata under the protocol's own header name: "x-grpc-status: <code>:…"
 deriving DecidableEq, Repr
 
 inductive Ret where
@@ -31,12 +32,14 @@ structure Sts where
   hdrs : List Nat := []
   hdrsSent : Bool := false
   tlrs : List Nat := []
+  spoof : Option Nat := none   -- the first value the handler put under "x-grpc-status" (http.Header.Get reads the first)
 deriving DecidableEq, Repr
 
 def hstep (s : Sts) : HOp → Sts × Res
   | .setHeader md => if s.hdrsSent then (s, .plainErr) else ({ s with hdrs := s.hdrs ++ [md] }, .ok)
   | .sendHeader md => if s.hdrsSent then (s, .plainErr) else ({ s with hdrs := s.hdrs ++ [md], hdrsSent := true }, .ok)
   | .setTrailer md => ({ s with tlrs := s.tlrs ++ [md] }, .ok)
+  | .setStatusHeader c => if s.hdrsSent then (s, .plainErr) else ({ s with spoof := (match s.spoof with | some x => some x | none => some c) }, .ok)
 
 def runOps (s : Sts) : List HOp → Sts × List Res
   | [] => (s, [])
@@ -73,8 +76,10 @@ def serve (ops : List HOp) (ret : Ret) (ctxDone : Bool) : Reply × List Res :=
     -- (handleMethod has its own copy of the OK → Internal rewrite; its presence is regenerated)
     let c := unaryCode e
     ({ httpStatus := Codes.defaultRendererStatus c ctxDone, grpcCode := some c, hdr := s.hdrs, tlr := s.tlrs, body := none }, rs)
-  | .resp m true => ({ httpStatus := 200, grpcCode := none, hdr := s.hdrs, tlr := s.tlrs, body := some m }, rs)
-  | .resp _ false => ({ httpStatus := 500, grpcCode := none, hdr := s.hdrs, tlr := s.tlrs, body := none }, rs)
+  -- without an error `handleMethod` writes no X-GRPC-Status of its own: whatever the handler's header metadata put under
+  -- that name reaches the client as the status header (known finding C02-F2)
+  | .resp m true => ({ httpStatus := 200, grpcCode := s.spoof, hdr := s.hdrs, tlr := s.tlrs, body := some m }, rs)
+  | .resp _ false => ({ httpStatus := 500, grpcCode := s.spoof, hdr := s.hdrs, tlr := s.tlrs, body := none }, rs)
 
 structure Seen where
   result : Res
@@ -90,8 +95,14 @@ def client (r : Reply) : Seen :=
     | none => Codes.codeFromHttpStatus r.httpStatus
   -- (the order "metadata before status" is regenerated from Channel.Invoke)
   let early := code != 0 && !Gen.unaryClientMetadataBeforeStatus
-  { result := if code != 0 then .status code else (match r.body with | some m => .msg m | none => .ok),
+  { result := if code != 0 then .status code else (match r.body with | some m => .msg m | none => .plainErr)   -- (no message in the body: the codec fails on the error page),
     hdr := if early then [] else r.hdr, tlr := if early then [] else r.tlr }
+
+/-- the handler never sets header metadata under the protocol's status header name -/
+def noStatusHeader : List HOp → Bool
+  | [] => true
+  | .setStatusHeader _ :: _ => false
+  | _ :: r => noStatusHeader r
 
 /-- the metadata of the SetHeader / SendHeader calls that returned nil -/
 def okHdr : List HOp → List Res → List Nat
